@@ -47,6 +47,7 @@ struct Scn {
     fs_corrupt_p: f64,
     fs_latency: bool,
     fs_cache: bool,
+    fs_block: u64, // 0 = no torn writes
     ctl: Vec<(u64, u8, usize, usize)>, // (after step, action code, host a, host b)
     steps: u64,
 }
@@ -99,6 +100,7 @@ fn gen(seed: u64) -> Scn {
         fs_corrupt_p: if faulty_fs { r.pick_copy(&[0.0, 0.2]) } else { 0.0 },
         fs_latency: r.chance(0.4),
         fs_cache: r.chance(0.3),
+        fs_block: r.pick_copy(&[0u64, 0, 16, 64, 512]),
         ctl,
         steps,
     }
@@ -258,7 +260,19 @@ async fn fam_tokio(log: Log<String>, me: usize, s: Scn) {
 
 async fn fam_fs(log: Log<String>, me: usize, s: Scn) {
     let mut r = Rng::new(s.seed ^ (me as u64 * 15485863));
+    // what survived an earlier incarnation (crash + bounce): torn writes, random syncs
+    if let Ok(rd) = sfs::read_dir("/w/d") {
+        let mut seen = vec![];
+        for e in rd.filter_map(|e| e.ok()) {
+            let name = e.file_name().to_string_lossy().to_string();
+            let content = sfs::read(e.path()).map(|v| format!("{}:{:016x}", v.len(), vcore::digest_str(&vcore::hex(&v)))).unwrap_or_else(|e| format!("{:?}", e.kind()));
+            seen.push(format!("{name}={content}"));
+        }
+        log.push(format!("n{me} survived {seen:?}"));
+    }
     let _ = sfs::create_dir_all("/w/d");
+    let _ = sfs::sync_dir("/w");
+    let _ = sfs::sync_dir("/");
     for i in 0..r.range(8, 14) {
         let name = format!("/w/d/{}-{}", ["alpha", "beta", "gamma", "delta"][i as usize % 4], i * 37 % 11);
         let res = sfs::write(&name, vcore::rng::keyed_bytes(s.seed, i, r.range(1, 300) as usize));
@@ -434,6 +448,9 @@ pub fn run_trace(seed: u64) -> Vec<String> {
             }
             if s.fs_cache {
                 f.page_cache().max_pages(4).random_eviction_probability(0.2);
+            }
+            if s.fs_block > 0 {
+                f.block_size(s.fs_block);
             }
         }
         let mut sim = b.build();
@@ -611,6 +628,7 @@ pub fn run(ctx: &Ctx) -> ! {
             out.count("io_uring_completions", a.iter().filter(|l| l.contains("uring cqe")).count() as u64);
             out.count("broadcast_or_multicast_receipts", a.iter().filter(|l| l.contains(" udp ") && l.contains(" from ")).count() as u64);
             out.count("controller_actions", a.iter().filter(|l| l.contains("ctl after step")).count() as u64);
+            out.count("post_crash_fs_readbacks", a.iter().filter(|l| l.contains(" survived [\"")).count() as u64);
             if s.fail_rate > 0.0 {
                 out.count("scenarios_with_random_link_failures", 1);
             }
